@@ -13,6 +13,7 @@ from sa.srcmodel import Program
 from sa.srcmodel import dotted
 
 from checks.blank import check_blank_flags
+from checks.shared import check_trim_carry_ownership
 
 META = {
     "technique": "strip-closure dataflow on Environment.trim; blank-flag soundness rule over every Node class; sibling "
@@ -187,73 +188,5 @@ def run(prog: Program, res: Result) -> None:  # noqa: PLR0912, PLR0915
 
     # ------------------------------------------------------------------ R4 carry ownership
     res.rule("C18.R4", "in every Tag.parse, each parse_block is entered with the trim carry of the tag immediately before that block (at most one tag token consumed since the carry was set)")
-    tag_base = prog.cls("liquid2.tag.Tag")
-    n_pb = 0
-    for tc in prog.subclasses(tag_base, strict=True):
-        m = tc.methods.get("parse")
-        if m is None:
-            continue
-        calls = [c for c in ast.walk(m.node) if isinstance(c, ast.Call) and ((isinstance(c.func, ast.Attribute) and c.func.attr == "parse_block") or (isinstance(c.func, ast.Name) and c.func.id == "parse_block"))]
-        if not calls:
-            continue
-        res.analysed_functions.add(m.fid)
-        cfg = CFG(m.node, may_raise=lambda st: False)
-        stream_name = next((p for p in m.params() if p == "stream"), None)
-        if stream_name is None:
-            continue
-
-        def effects(node_ast: ast.AST) -> list[str]:
-            """Ordered carry events of one statement/test: 'consume', 'block', 'set'."""
-            ev: list[tuple[int, int, str]] = []
-            for c in ast.walk(node_ast):
-                if isinstance(c, ast.Call):
-                    f = c.func
-                    if isinstance(f, ast.Attribute) and isinstance(f.value, ast.Name) and f.value.id == stream_name and f.attr in ("next", "into_inner"):  # noqa: B023
-                        ev.append((c.lineno, c.col_offset, "consume"))
-                    elif (isinstance(f, ast.Attribute) and f.attr == "parse_block") or (isinstance(f, ast.Name) and f.id == "parse_block"):
-                        ev.append((c.end_lineno or c.lineno, c.end_col_offset or 0, "block"))
-            if isinstance(node_ast, ast.Assign) and any(isinstance(t, ast.Attribute) and t.attr == "trim_carry" and isinstance(t.value, ast.Name) and t.value.id == stream_name for t in node_ast.targets):  # noqa: B023
-                ev.append((10**9, 0, "set"))
-            ev.sort()
-            # a consume nested inside the arguments of parse_block happens before the block
-            return [e[2] for e in ev]
-
-        stale_sites: dict[int, int] = {}
-
-        def transfer(n, st, label):  # noqa: ANN001, ANN202
-            if n.node is None or n.kind in ("entry", "exit", "raise"):
-                return st
-            if n.kind not in ("stmt", "test"):
-                return st
-            cur = st
-            for e in effects(n.node):
-                if e == "consume":
-                    cur = min(cur + 1, 2)
-                elif e == "block":
-                    stale_sites[n.id] = max(stale_sites.get(n.id, 0), cur)
-                    cur = 0
-                elif e == "set":
-                    cur = 0
-            return cur
-
-        forward(cfg, 0, transfer, max)
-        for c in calls:
-            n_pb += 1
-            node = next((n for n in cfg.nodes if n.node is not None and n.kind in ("stmt", "test") and any(x is c for x in ast.walk(n.node))), None)
-            site = f"{m.file}:{c.lineno} {m.qualname}"
-            what = f"`{norm(c, 50)}` entered with a fresh trim carry"
-            worst = stale_sites.get(node.id, 0) if node is not None else 2
-            if worst <= 1:
-                res.ok("C18.R4", site, what, "carry belongs to the tag just consumed" if worst else "carry belongs to the current tag")
-            else:
-                res.fail(
-                    "C18.R4",
-                    file=m.file,
-                    line=c.lineno,
-                    qualname=m.qualname,
-                    construct=f"{tc.name}.parse: {norm(c, 50)} with a stale carry",
-                    message=f"{tc.name}.parse can reach `{norm(c, 40)}` after consuming two tag tokens without refreshing stream.trim_carry: the block is trimmed by an earlier tag's marker instead of the tag right before it",
-                    what=what,
-                )
-    res.floor("C18.R4", "parse_block call sites in tags", n_pb, 15)
+    check_trim_carry_ownership(prog, res, "C18.R4")
     # the dispatcher refreshes the carry for every tag it dispatches (R3 arm check) and parse_block leaves it set for the end tag
